@@ -106,6 +106,20 @@ func histories(maxRetries int) []history {
 	}
 	extras := [][]do{nil, {{Kind: "ok", R: false}}, {{Kind: "exit"}}, {{Kind: "ok", R: false}, {Kind: "exit"}}, {{Kind: "exit"}, {Kind: "ok", R: false}}}
 	var out []history
+	// k failing attempts answered with retry(r), then a final answer of another error mode (or
+	// a false result): also when the k-th retry has used the budget up (k == r), the handler of
+	// the last attempt still decides (added after seed c08-3)
+	for r := 1; r <= maxRetries; r++ {
+		for k := 1; k <= r; k++ {
+			for _, final := range []do{{Kind: "skip"}, {Kind: "exit"}, {Kind: "err"}, {Kind: "ok", R: false}} {
+				var seq []do
+				for i := 0; i < k; i++ {
+					seq = append(seq, do{Kind: "retry", Retries: int32(r)})
+				}
+				out = append(out, history{Firsts: append(seq, final), Mode: "seq"})
+			}
+		}
+	}
 	for _, b := range base {
 		for _, e := range extras {
 			if len(e) == 0 {
